@@ -1,4 +1,4 @@
-import AkVerif.Lemmas.TableFmt
+import AkVerif.Lemmas.TableReach
 /-!
 # C13 — a table's reported format string reproduces the table
 
